@@ -99,6 +99,8 @@ CONFIGS = [
     (["-t", "ext4", "-b", "2048", "-g", "1024", "-O", "64bit,^metadata_csum", "-N", "512"], "20M"),
     (["-t", "ext3", "-b", "1024"], "20M"),
     (["-t", "ext4", "-b", "1024", "-g", "256", "-O", "meta_bg,^resize_inode,64bit", "-N", "256"], "13M"),
+    # 1k blocks + bigalloc + meta_bg: block 0 is outside group 0, the backup descriptors of the first meta group sit in group 1
+    (["-t", "ext4", "-b", "1024", "-O", "bigalloc,meta_bg,^resize_inode", "-C", "4096", "-g", "8192"], "80M"),
     # sparse_super2 without a resize inode, many groups, files everywhere: a shrink makes another group the last-group backup location
     (["-t", "ext4", "-b", "1024", "-g", "1024", "-O", "sparse_super2,^resize_inode,^has_journal", "-N", "512"], "20M"),
 ]
@@ -297,7 +299,7 @@ def run(res, replay=None):
     res.cov["evaluations"] += rows
     res.sample({"sweep_config": cfgs[3], "columns": "group has_super super_blk old_desc_blk new_desc_blk used_blks", "first_rows": hout[:4]})
     # ---- B. tools
-    n = 18 if tier == "quick" else 180
+    n = 20 if tier == "quick" else 200
     with concurrent.futures.ThreadPoolExecutor(8) as ex:
         outs = list(ex.map(lambda i: tool_case(src, mexe, i, seed, tier), range(n)))
     bad = []
